@@ -134,7 +134,8 @@ pub enum Mode {
     Dirty,
 }
 
-pub const RAW_POOL: [&str; 48] = [
+pub const RAW_POOL: [&str; 54] = [
+    "u\u{308}", "scho\u{308}n", "A\u{308}pfel", "fu\u{308}nf", "e\u{300}", "n\u{303}",
     "\u{2010}", "a\u{2011}b", "\u{ad}", "–", "—", "\u{2212}", "\u{feff}x", "“q”",
     "", " ", "-", "--", "'", "''", "-'", "a-", "-a", "\u{301}", "e\u{301}", "١٢٣", "１２", "²", "½", "\u{200b}", "\u{feff}", "\0", "ß", "İ", "ǅ", "ﬁ", "ſ", "K", "Ω",
     "𝟘", "x", "12", "3.5", "٣", "日本", "Ⅻ", "a\u{30a}", "\u{1f600}", "\u{e000}", "\u{2028}", "\r\n", "\u{85}", "o'", "'o",
